@@ -115,9 +115,98 @@ def flipped_source(src):
     return ast.unparse(ast.fix_missing_locations(mod)), count
 
 
+def extend_source(src):
+    """`xs += [a, b]` / `xs += [f(e) for e in es]` become `xs.extend(...)`: the same for lists, another statement shape"""
+    mod = ast.parse(src)
+    count = 0
+
+    class T(ast.NodeTransformer):
+        def visit_AugAssign(self, n):
+            nonlocal count
+            listy = isinstance(n.value, (ast.List, ast.ListComp)) or (isinstance(n.target, ast.Attribute) and n.target.attr in (
+                "equations", "initial_equations", "statements", "initial_statements", "arguments", "extends", "indices", "child"))
+            if isinstance(n.op, ast.Add) and listy and isinstance(n.target, (ast.Name, ast.Attribute)):
+                count += 1
+                tgt = ast.parse(ast.unparse(n.target), mode="eval").body
+                return ast.Expr(value=ast.Call(func=ast.Attribute(value=tgt, attr="extend", ctx=ast.Load()), args=[n.value], keywords=[]))
+            return n
+
+    mod = T().visit(mod)
+    return ast.unparse(ast.fix_missing_locations(mod)), count
+
+
+def inline_source(src):
+    """a local that is bound once (`t = <expr>`) and read once, in the very next statement, is replaced by its value there"""
+    mod = ast.parse(src)
+    count = 0
+    for fn in [n for n in ast.walk(mod) if isinstance(n, (ast.FunctionDef, ast.AsyncFunctionDef))]:
+        stores, loads = {}, {}
+        for n in ast.walk(fn):
+            if isinstance(n, ast.Name):
+                (stores if isinstance(n.ctx, (ast.Store, ast.Del)) else loads).setdefault(n.id, []).append(n)
+        params = _params(fn)
+        for node in ast.walk(fn):
+            for fld in ("body", "orelse", "finalbody"):
+                b = getattr(node, fld, None)
+                if not isinstance(b, list):
+                    continue
+                i = 0
+                while i + 1 < len(b):
+                    st, nxt = b[i], b[i + 1]
+                    if isinstance(st, ast.Assign) and len(st.targets) == 1 and isinstance(st.targets[0], ast.Name):
+                        v = st.targets[0].id
+                        if v not in params and len(stores.get(v, [])) == 1 and len(loads.get(v, [])) == 1 and not isinstance(st.value, (ast.Lambda, ast.Yield, ast.Await)) \
+                                and isinstance(nxt, (ast.Assign, ast.Expr, ast.Return, ast.AugAssign)):
+                            use = loads[v][0]
+                            inside = any(x is use for x in ast.walk(nxt))
+                            in_nested = any(isinstance(x, (ast.Lambda, ast.ListComp, ast.GeneratorExp, ast.SetComp, ast.DictComp, ast.FunctionDef)) and any(y is use for y in ast.walk(x))
+                                            for x in ast.walk(nxt))
+                            if inside and not in_nested:
+                                class R(ast.NodeTransformer):
+                                    def visit_Name(self, n, _u=use, _val=st.value):
+                                        return _val if n is _u else n
+                                b[i + 1] = R().visit(nxt)
+                                del b[i]
+                                count += 1
+                                continue
+                    i += 1
+    return ast.unparse(ast.fix_missing_locations(mod)), count
+
+
+def extract_source(src):
+    """`obj.attr = <expr>` / `obj[k] = <expr>` / `return <call>` get a temporary: `tmp = <expr>; obj.attr = tmp`"""
+    mod = ast.parse(src)
+    count = 0
+    for fn in [n for n in ast.walk(mod) if isinstance(n, (ast.FunctionDef, ast.AsyncFunctionDef))]:
+        is_gen = any(isinstance(x, (ast.Yield, ast.YieldFrom)) for x in ast.walk(fn))
+        for node in ast.walk(fn):
+            for fld in ("body", "orelse", "finalbody"):
+                b = getattr(node, fld, None)
+                if not isinstance(b, list):
+                    continue
+                out = []
+                for st in b:
+                    v = getattr(st, "value", None)
+                    if isinstance(st, ast.Assign) and len(st.targets) == 1 and isinstance(st.targets[0], (ast.Attribute, ast.Subscript)) \
+                            and not isinstance(v, (ast.Name, ast.Constant)) or (isinstance(st, ast.Return) and isinstance(v, ast.Call) and not is_gen):
+                        count += 1
+                        name = "tmp%d%s" % (count, SUFFIX)
+                        out.append(ast.Assign(targets=[ast.Name(id=name, ctx=ast.Store())], value=v))
+                        st.value = ast.Name(id=name, ctx=ast.Load())
+                    out.append(st)
+                b[:] = out
+    return ast.unparse(ast.fix_missing_locations(mod)), count
+
+
 def renamed_source(src):
+    if os.environ.get("RN_TRANSFORM") == "extract":
+        return extract_source(src)
+    if os.environ.get("RN_TRANSFORM") == "inline":
+        return inline_source(src)
     if os.environ.get("RN_TRANSFORM") == "flip":
         return flipped_source(src)
+    if os.environ.get("RN_TRANSFORM") == "extend":
+        return extend_source(src)
     mod = ast.parse(src)
     count = 0
     # outermost functions first; nested functions are handled when met on their own (their own locals)
